@@ -2,16 +2,433 @@
 Helper lemmas for C07 (parse / write re-emission). See Props/C07.lean for the statements.
 -/
 import Preflate.Model.Deflate
+import Preflate.Proofs.Bits
+import Preflate.Proofs.Tables
 namespace Preflate.Proofs
-open Preflate
+open Preflate Preflate.Gen
+set_option linter.unusedSimpArgs false
+
+theorem ok_bind {ε α β : Type} (a : α) (f : α → Except ε β) : (Except.ok a >>= f) = f a := rfl
+
+theorem throw_bind_eq_ok {ε α β : Type} (e : ε) (f : α → Except ε β) (b : β) :
+    ((throw e : Except ε α) >>= f) = .ok b ↔ False := by
+  simp [throw, throwThe, MonadExceptOf.throw, bind, Except.bind]
+
+theorem writeToken_ref (ll dl : List Nat) {c ex dc dx : Nat} (hc : c < 29)
+    (hex : ex < 2 ^ lengthExtra c) (hs : 257 + c < ll.length) (hdc : dc < 30)
+    (hdx : dx < 2 ^ distExtra dc) (hds : dc < dl.length) :
+    writeToken ll dl (.ref (3 + lengthBase c + ex) (1 + distBase dc + dx)
+      (3 + lengthBase c + ex == 258 && c != 28)) =
+    .ok ((codeBits ll (257 + c) ++ bitsOfNat (lengthExtra c) ex) ++
+         (codeBits dl dc ++ bitsOfNat (distExtra dc) dx)) := by
+  have hq := dist_quantize hdc hdx
+  have e1 : ∀ site, idx DIST_EXTRA_TABLE dc site = .ok (distExtra dc) :=
+    fun site => idx_ok _ _ site (by rw [distExtra_len]; exact hdc)
+  have e2 : ∀ site, idx DIST_BASE_TABLE dc site = .ok (distBase dc) :=
+    fun site => idx_ok _ _ site (by rw [distBase_len]; exact hdc)
+  have e3 : ∀ site, idx LENGTH_EXTRA_TABLE c site = .ok (lengthExtra c) :=
+    fun site => idx_ok _ _ site (by rw [lengthExtra_len]; exact hc)
+  have e4 : ∀ site, idx LENGTH_BASE_TABLE c site = .ok (lengthBase c) :=
+    fun site => idx_ok _ _ site (by rw [lengthBase_len]; exact hc)
+  have h1 : ¬ (1 + distBase dc + dx < 1 + distBase dc) := by omega
+  have h2 : 1 + distBase dc + dx - 1 - distBase dc = dx := by omega
+  have h3 : ∀ site, emit dx (distExtra dc) site = .ok (bitsOfNat (distExtra dc) dx) :=
+    fun site => emit_ok site hdx
+  have h4 : ¬ (3 + lengthBase c + ex < 3 + lengthBase c) := by omega
+  have h5 : 3 + lengthBase c + ex - 3 - lengthBase c = ex := by omega
+  have h6 : ∀ site, emit ex (lengthExtra c) site = .ok (bitsOfNat (lengthExtra c) ex) :=
+    fun site => emit_ok site hex
+  have h7 : ¬ distExtra dc > 0 → bitsOfNat (distExtra dc) dx = [] := by
+    intro h
+    have : distExtra dc = 0 := by omega
+    rw [this]; rfl
+  have h8 : ¬ lengthExtra c > 0 → bitsOfNat (lengthExtra c) ex = [] := by
+    intro h
+    have : lengthExtra c = 0 := by omega
+    rw [this]; rfl
+  unfold writeToken
+  simp only [hq, ok_bind, writeSym, hds, if_true, e1, e2, h1, h2, h3, if_false]
+  by_cases hirr : (3 + lengthBase c + ex == 258 && c != 28) = true
+  · rw [if_pos hirr]
+    have := length_irregular hc hex (by simpa using hirr)
+    obtain ⟨rfl, rfl⟩ := this
+    have hs' : LITLEN_CODE_COUNT - 2 < ll.length := by simp only [LITLEN_CODE_COUNT]; omega
+    have e5 : ∀ site, emit 31 5 site = .ok (bitsOfNat (lengthExtra 27) 31) := fun site => by
+      rw [emit_ok site (by decide)]; rfl
+    have e6 : LITLEN_CODE_COUNT - 2 = 257 + 27 := by decide
+    simp only [hs', if_true, ok_bind, e5]
+    rw [e6]
+    by_cases hnb : distExtra dc > 0
+    · simp only [hnb, if_true, ok_bind]
+    · simp only [hnb, if_false, h7 hnb, List.append_nil]
+  · rw [if_neg hirr]
+    have hql := length_regular hc hex (by simpa using hirr)
+    have hs' : NONLEN_CODE_COUNT + c < ll.length := by simp only [NONLEN_CODE_COUNT]; omega
+    have e6 : NONLEN_CODE_COUNT + c = 257 + c := by simp only [NONLEN_CODE_COUNT]
+    simp only [hql, ok_bind, hs', if_true, e3, e4, MIN_MATCH, h4, h5, h6, if_false]
+    rw [e6]
+    by_cases hnb : distExtra dc > 0 <;> by_cases hnl : lengthExtra c > 0
+    · simp only [hnb, hnl, if_true, ok_bind]
+    · simp only [hnb, hnl, if_true, if_false, ok_bind, h8 hnl, List.append_nil]
+    · simp only [hnb, hnl, if_true, if_false, ok_bind, h7 hnb, List.append_nil]
+    · simp only [hnb, hnl, if_true, if_false, ok_bind, h7 hnb, h8 hnl, List.append_nil]
+
+
+-- ---------------------------------------------------------------------------------------------
+-- dynamic header: code length code lengths
+
+theorem readCodeLengths_frame {n i : Nat} {acc : List Nat} {bs : Bits} {cl : List Nat} {rest : Bits}
+    (h : readCodeLengths n i acc bs = .ok (cl, rest)) :
+    cl.length = acc.length ∧
+    ∀ p, (∀ j, i ≤ j → j < i + n → TREE_CODE_ORDER_TABLE.getD j 0 ≠ p) → cl[p]? = acc[p]? := by
+  induction n generalizing i acc bs with
+  | zero =>
+    simp only [readCodeLengths, Except.ok.injEq, Prod.mk.injEq] at h
+    obtain ⟨rfl, rfl⟩ := h
+    exact ⟨rfl, fun _ _ => rfl⟩
+  | succ n ih =>
+    simp only [readCodeLengths, bind_eq_ok] at h
+    obtain ⟨⟨v, bs1⟩, h1, h2⟩ := h
+    simp only at h2
+    obtain ⟨hl, hp⟩ := ih h2
+    refine ⟨by simpa using hl, ?_⟩
+    intro p hq
+    rw [hp p (fun j hj1 hj2 => hq j (by omega) (by omega))]
+    have := hq i (by omega) (by omega)
+    rw [List.getElem?_set_ne this]
+
+theorem readCodeLengths_ok {n i : Nat} {acc : List Nat} {bs : Bits} {cl : List Nat} {rest : Bits}
+    (h : readCodeLengths n i acc bs = .ok (cl, rest)) (hi : i + n ≤ 19) (hacc : acc.length = 19) :
+    ∃ w, writeCodeLengths cl n i = .ok w ∧ bs = w ++ rest := by
+  induction n generalizing i acc bs with
+  | zero =>
+    simp only [readCodeLengths, Except.ok.injEq, Prod.mk.injEq] at h
+    obtain ⟨rfl, rfl⟩ := h
+    exact ⟨[], rfl, rfl⟩
+  | succ n ih =>
+    simp only [readCodeLengths, bind_eq_ok] at h
+    obtain ⟨⟨v, bs1⟩, h1, h2⟩ := h
+    simp only at h2
+    obtain ⟨w, hw, hbs⟩ := ih h2 (by omega) (by simpa using hacc)
+    obtain ⟨hl, hp⟩ := readCodeLengths_frame h2
+    obtain ⟨hb1, hv⟩ := readBits_ok h1
+    have ho := order_lt i (by omega)
+    have hcl : cl[TREE_CODE_ORDER_TABLE.getD i 0]? = some v := by
+      rw [hp _ (fun j hj1 hj2 hj => by
+        have := order_inj j i (by omega) (by omega) hj; omega)]
+      rw [List.getElem?_set_self (by omega)]
+    refine ⟨bitsOfNat 3 v ++ w, ?_, ?_⟩
+    · simp only [writeCodeLengths]
+      rw [idx_ok _ _ _ (by rw [order_length]; omega)]
+      simp only [ok_bind, idx_ok' _ _ _ _ hcl, emit_ok _ hv, hw]
+    · rw [hb1, hbs, List.append_assoc]
+
+-- ---------------------------------------------------------------------------------------------
+-- dynamic header: run-length items
+
+theorem readRleItems_ok (cl : List Nat) (total : Nat) {fuel read : Nat} {bs : Bits}
+    {items : List RleItem} {rest : Bits}
+    (h : readRleItems (codeTable cl) total fuel read bs = .ok (items, rest)) :
+    ∃ w, writeRleItems cl items = .ok w ∧ bs = w ++ rest := by
+  induction fuel generalizing read bs items with
+  | zero => simp [readRleItems] at h
+  | succ fuel ih =>
+    rw [readRleItems] at h
+    split at h
+    · simp only [bind_eq_ok] at h
+      obtain ⟨⟨w, bs1⟩, h1, h2⟩ := h
+      simp only at h2
+      obtain ⟨hb1, hw⟩ := decodeSym_ok h1
+      split at h2
+      · simp only [bind_eq_ok] at h2
+        obtain ⟨⟨items', bs2⟩, h3, h4⟩ := h2
+        simp only [Except.ok.injEq, Prod.mk.injEq] at h4
+        obtain ⟨rfl, rfl⟩ := h4
+        obtain ⟨w', hw', hbs⟩ := ih h3
+        refine ⟨codeBits cl w ++ w', ?_, ?_⟩
+        · simp only [writeRleItems, if_true, hw, ok_bind, hw']
+        · rw [hb1, hbs, List.append_assoc]
+      · split at h2
+        · simp only [bind_eq_ok] at h2
+          obtain ⟨⟨x, bs2⟩, h3, h4⟩ := h2
+          simp only [bind_eq_ok] at h4
+          obtain ⟨⟨items', bs3⟩, h5, h6⟩ := h4
+          simp only [Except.ok.injEq, Prod.mk.injEq] at h6
+          obtain ⟨rfl, rfl⟩ := h6
+          obtain ⟨w', hw', hbs⟩ := ih h5
+          obtain ⟨hb2, hx⟩ := readBits_ok h3
+          refine ⟨codeBits cl w ++ bitsOfNat (treeCodeAdjust w).2 x ++ w', ?_, ?_⟩
+          · have hk : ¬ w = 0 := by omega
+            have e : x + (treeCodeAdjust w).1 - (treeCodeAdjust w).1 = x := by omega
+            have hlt : ¬ (x + (treeCodeAdjust w).1 < (treeCodeAdjust w).1) := by omega
+            simp only [writeRleItems, hk, if_false, hw, not_true, ok_bind, hlt, e, emit_ok _ hx, hw',
+              pure_bind]
+          · rw [hb1, hb2, hbs]; simp only [List.append_assoc]
+        · simp at h2
+    · split at h
+      · simp only [Except.ok.injEq, Prod.mk.injEq] at h
+        obtain ⟨rfl, rfl⟩ := h
+        exact ⟨[], rfl, rfl⟩
+      · simp at h
+
+
+theorem readHeader_ok {bs : Bits} {h : Header} {rest : Bits} (hr : readHeader bs = .ok (h, rest)) :
+    ∃ w, writeHeader h = .ok w ∧ bs = w ++ rest := by
+  simp only [readHeader, bind_eq_ok] at hr
+  obtain ⟨⟨a, bs1⟩, h1, ⟨b, bs2⟩, h2, ⟨c, bs3⟩, h3, ⟨cl, bs4⟩, h4, t, h5, ⟨items, bs5⟩, h6, hr⟩ := hr
+  simp only at h2 h3 h4 h5 h6 hr
+  simp only [Except.ok.injEq, Prod.mk.injEq] at hr
+  obtain ⟨rfl, rfl⟩ := hr
+  obtain ⟨e1, ha⟩ := readBits_ok h1
+  obtain ⟨e2, hb⟩ := readBits_ok h2
+  obtain ⟨e3, hc⟩ := readBits_ok h3
+  obtain ⟨w4, hw4, e4⟩ := readCodeLengths_ok h4 (by omega) (by simp)
+  rw [mkTable_ok h5] at h6
+  obtain ⟨w6, hw6, e6⟩ := readRleItems_ok _ _ h6
+  refine ⟨bitsOfNat 5 a ++ bitsOfNat 5 b ++ bitsOfNat 4 c ++ w4 ++ w6, ?_, ?_⟩
+  · have n1 : ¬ (a + 257 < 257) := by omega
+    have n2 : ¬ (b + 1 < 1) := by omega
+    have n3 : ¬ (c + 4 < 4) := by omega
+    simp only [writeHeader, n1, n2, n3, if_false, pure_bind, Nat.add_sub_cancel, emit_ok _ ha,
+      emit_ok _ hb, emit_ok _ hc, ok_bind, hw4, hw6]
+  · rw [e1, e2, e3, e4, e6]; simp only [List.append_assoc]
+
+-- ---------------------------------------------------------------------------------------------
+-- tokens
+
+theorem decodeTokens_ok (ll dl : List Nat) {fuel : Nat} {plain : Array Nat} {bs : Bits}
+    {ts : List Token} {plain' : Array Nat} {rest : Bits}
+    (h : decodeTokens (codeTable ll) (codeTable dl) fuel plain bs = .ok (ts, plain', rest)) :
+    ∃ w, writeTokens ll dl ts = .ok w ∧ bs = w ++ rest := by
+  induction fuel generalizing plain bs ts with
+  | zero => simp [decodeTokens] at h
+  | succ fuel ih =>
+    rw [decodeTokens] at h
+    simp only [bind_eq_ok] at h
+    obtain ⟨⟨sym, bs1⟩, h1, h⟩ := h
+    simp only at h
+    obtain ⟨e1, hsym⟩ := decodeSym_ok h1
+    split at h
+    · simp only [bind_eq_ok] at h
+      obtain ⟨⟨ts', pl, bs2⟩, h2, h⟩ := h
+      simp only [Except.ok.injEq, Prod.mk.injEq] at h
+      obtain ⟨rfl, rfl, rfl⟩ := h
+      obtain ⟨w, hw, e2⟩ := ih h2
+      refine ⟨codeBits ll sym ++ w, ?_, ?_⟩
+      · simp only [writeTokens, writeToken, writeSym, hsym, if_true, ok_bind, hw]
+      · rw [e1, e2, List.append_assoc]
+    · split at h
+      · simp only [Except.ok.injEq, Prod.mk.injEq] at h
+        obtain ⟨rfl, rfl, rfl⟩ := h
+        rename_i hs
+        subst hs
+        refine ⟨codeBits ll 256, ?_, e1⟩
+        simp only [writeTokens, writeSym, hsym, if_true]
+      · split at h
+        · simp only [throw_bind_eq_ok] at h
+        · simp only [bind_eq_ok] at h
+          obtain ⟨⟨ex, bs2⟩, h2, h⟩ := h
+          simp only [bind_eq_ok] at h
+          obtain ⟨⟨dc, bs3⟩, h3, h⟩ := h
+          simp only at h
+          split at h
+          · simp only [throw_bind_eq_ok] at h
+          · simp only [bind_eq_ok] at h
+            obtain ⟨⟨dx, bs4⟩, h4, h⟩ := h
+            simp only at h
+            split at h
+            · simp only [throw_bind_eq_ok] at h
+            · simp only [bind_eq_ok] at h
+              obtain ⟨⟨ts', pl, bs5⟩, h5, h⟩ := h
+              simp only [Except.ok.injEq, Prod.mk.injEq] at h
+              obtain ⟨rfl, rfl, rfl⟩ := h
+              obtain ⟨w, hw, e5⟩ := ih h5
+              obtain ⟨e2, hex⟩ := readBits_ok h2
+              obtain ⟨e3, hdc⟩ := decodeSym_ok h3
+              obtain ⟨e4, hdx⟩ := readBits_ok h4
+              rename_i hn1 hn2 hc hdc' hpl
+              simp only [NONLEN_CODE_COUNT, LEN_CODE_COUNT, DIST_CODE_COUNT, MIN_MATCH, ge_iff_le,
+                Nat.not_le] at *
+              have hsym' : 257 + (sym - 257) = sym := by omega
+              have hwt := writeToken_ref ll dl hc hex (by omega) hdc' hdx hdc
+              refine ⟨(codeBits ll (257 + (sym - 257)) ++ bitsOfNat (lengthExtra (sym - 257)) ex ++
+                (codeBits dl dc ++ bitsOfNat (distExtra dc) dx)) ++ w, ?_, ?_⟩
+              · simp only [writeTokens, ok_bind, Nat.reduceSub]
+                rw [hwt]
+                simp only [ok_bind, hw]
+              · rw [e1, e2, e3, e4, e5, hsym']; simp only [List.append_assoc]
+
+
+-- ---------------------------------------------------------------------------------------------
+-- blocks
+
+theorem readBytes_ok {n : Nat} {bs : Bits} {data : List Nat} {rest : Bits}
+    (h : readBytes n bs = .ok (data, rest)) :
+    bs = data.flatMap (bitsOfNat 8) ++ rest ∧ data.length = n := by
+  induction n generalizing bs data with
+  | zero =>
+    simp only [readBytes, Except.ok.injEq, Prod.mk.injEq] at h
+    obtain ⟨rfl, rfl⟩ := h
+    exact ⟨rfl, rfl⟩
+  | succ n ih =>
+    simp only [readBytes, bind_eq_ok] at h
+    obtain ⟨⟨b, bs1⟩, h1, ⟨r, bs2⟩, h2, h⟩ := h
+    simp only [Except.ok.injEq, Prod.mk.injEq] at h2 h
+    obtain ⟨rfl, rfl⟩ := h
+    obtain ⟨e1, _⟩ := readBits_ok h1
+    obtain ⟨e2, hl⟩ := ih h2
+    refine ⟨?_, by simp [hl]⟩
+    rw [e1, e2]; simp only [List.flatMap_cons, List.append_assoc]
+
+theorem bitsOfNat_one {v : Nat} (h : v < 2 ^ 1) :
+    bitsOfNat 1 v = [if (v == 1) = true then true else false] := by
+  have : v = 0 ∨ v = 1 := by omega
+  rcases this with rfl | rfl <;> rfl
+
+theorem readBlock_ok {plain : Array Nat} {bs : Bits} {last : Bool} {b : Block} {plain' : Array Nat}
+    {rest : Bits} (off : Nat) (hoff : (off + bs.length) % 8 = 0)
+    (h : readBlock plain bs = .ok (last, b, plain', rest)) :
+    ∃ w, writeBlock off last b = .ok w ∧ bs = w ++ rest := by
+  rw [readBlock] at h
+  simp only [bind_eq_ok] at h
+  obtain ⟨⟨lastN, bs1⟩, h1, ⟨mode, bs2⟩, h2, h⟩ := h
+  simp only at h2 h
+  obtain ⟨e1, hl⟩ := readBits_ok h1
+  obtain ⟨e2, hm⟩ := readBits_ok h2
+  rw [bitsOfNat_one hl] at e1
+  have hlen : (off + 3 + bs2.length) % 8 = 0 := by
+    have := congrArg List.length e1
+    have := congrArg List.length e2
+    simp only [List.length_append, List.length_cons, List.length_nil, length_bitsOfNat] at *
+    omega
+  split at h
+  · -- stored
+    rename_i hmode
+    subst hmode
+    simp only [bind_eq_ok] at h
+    obtain ⟨⟨pad, bs3⟩, h3, ⟨len, bs4⟩, h4, ⟨ilen, bs5⟩, h5, h⟩ := h
+    simp only at h4 h5 h
+    split at h
+    · simp only [throw_bind_eq_ok] at h
+    · rename_i hsum
+      simp only [bind_eq_ok] at h
+      obtain ⟨⟨data, bs6⟩, h6, h⟩ := h
+      simp only [Except.ok.injEq, Prod.mk.injEq] at h
+      obtain ⟨rfl, rfl, _, rfl⟩ := h
+      rw [mod8_eq_padCount _ _ hlen] at h3
+      obtain ⟨e3, _⟩ := readBits_ok h3
+      obtain ⟨e4, hlen16⟩ := readBits_ok h4
+      obtain ⟨e5, hilen16⟩ := readBits_ok h5
+      obtain ⟨e6, hdl⟩ := readBytes_ok h6
+      have hp : (2:Nat) ^ 16 = 65536 := by decide
+      rw [hp] at hlen16 hilen16
+      have a1 : data.length % 65536 = len := by omega
+      have a2 : 65535 - len = ilen := by omega
+      refine ⟨_, rfl, ?_⟩
+      simp only [padBits, a1, a2]
+      rw [e1, e2, e3, e4, e5, e6]
+      simp only [bitsOfNat, List.append_assoc, List.cons_append, List.nil_append]
+      rfl
+  · split at h
+    · -- fixed
+      rename_i hmode
+      subst hmode
+      simp only [bind_eq_ok] at h
+      obtain ⟨lt, h3, dt, h4, ⟨ts, pl, bs3⟩, h5, h⟩ := h
+      simp only [Except.ok.injEq, Prod.mk.injEq] at h
+      obtain ⟨rfl, rfl, _, rfl⟩ := h
+      rw [mkTable_ok h3, mkTable_ok h4] at h5
+      obtain ⟨w, hw, e3⟩ := decodeTokens_ok _ _ h5
+      refine ⟨_, by simp only [writeBlock, hw, ok_bind]; rfl, ?_⟩
+      rw [e1, e2, e3]
+      rfl
+    · split at h
+      · -- dynamic
+        rename_i hmode
+        subst hmode
+        simp only [bind_eq_ok] at h
+        obtain ⟨⟨hd, bs3⟩, h3, ⟨ll, dl⟩, h4, lt, h5, dt, h6, ⟨ts, pl, bs4⟩, h7, h⟩ := h
+        simp only [Except.ok.injEq, Prod.mk.injEq] at h4 h5 h6 h7 h
+        obtain ⟨rfl, rfl, _, rfl⟩ := h
+        rw [mkTable_ok h5, mkTable_ok h6] at h7
+        obtain ⟨w3, hw3, e3⟩ := readHeader_ok h3
+        obtain ⟨w, hw, e4⟩ := decodeTokens_ok _ _ h7
+        refine ⟨_, by simp only [writeBlock, hw3, h4, hw, ok_bind]; rfl, ?_⟩
+        rw [e1, e2, e3, e4]
+        simp only [bitsOfNat, List.append_assoc, List.cons_append, List.nil_append]
+        rfl
+      · simp at h
+
+theorem readBlocks_ok {fuel : Nat} {plain : Array Nat} {bs : Bits} {blocks : List Block}
+    {plain' : Array Nat} {rest : Bits} (off : Nat) (hoff : (off + bs.length) % 8 = 0)
+    (h : readBlocks fuel plain bs = .ok (blocks, plain', rest)) :
+    ∃ w, writeBlocks off blocks = .ok w ∧ bs = w ++ rest ∧ blocks ≠ [] := by
+  induction fuel generalizing plain bs blocks off with
+  | zero => simp [readBlocks] at h
+  | succ fuel ih =>
+    rw [readBlocks] at h
+    simp only [bind_eq_ok] at h
+    obtain ⟨⟨last, b, pl, bs1⟩, h1, h⟩ := h
+    simp only at h
+    obtain ⟨w1, hw1, e1⟩ := readBlock_ok off hoff h1
+    split at h
+    · rename_i hlast
+      simp only [Except.ok.injEq, Prod.mk.injEq] at h
+      obtain ⟨rfl, _, rfl⟩ := h
+      subst hlast
+      exact ⟨w1, by simpa [writeBlocks] using hw1, e1, by simp⟩
+    · rename_i hlast
+      simp only [bind_eq_ok] at h
+      obtain ⟨⟨r, pl2, bs2⟩, h2, h⟩ := h
+      simp only [Except.ok.injEq, Prod.mk.injEq] at h
+      obtain ⟨rfl, rfl, rfl⟩ := h
+      have hlast' : last = false := by simpa using hlast
+      subst hlast'
+      have hoff2 : (off + w1.length + bs1.length) % 8 = 0 := by
+        have := congrArg List.length e1
+        simp only [List.length_append] at this
+        omega
+      obtain ⟨w2, hw2, e2, hne⟩ := ih (off + w1.length) hoff2 h2
+      refine ⟨w1 ++ w2, ?_, by rw [e1, e2, List.append_assoc], by simp⟩
+      cases r with
+      | nil => exact absurd rfl hne
+      | cons b2 r2 =>
+        simp only [writeBlocks, hw1, ok_bind, hw2]
+
+-- ---------------------------------------------------------------------------------------------
+-- the stream
 
 theorem write_parse_bits (bs : Bits) (p : Parsed) (hlen : bs.length % 8 = 0)
     (h : parseBits bs = .ok p) :
     ∃ w, writeStreamBits p.blocks p.eofPadding = .ok w ∧ bs = w ++ p.rest ∧ w.length % 8 = 0 := by
-  sorry
+  simp only [parseBits, bind_eq_ok] at h
+  obtain ⟨⟨blocks, plain, bs1⟩, h1, ⟨pad, bs2⟩, h2, h⟩ := h
+  simp only [Except.ok.injEq] at h2 h
+  subst h
+  simp only
+  obtain ⟨w, hw, e1, _⟩ := readBlocks_ok 0 (by omega) h1
+  have hl : (w.length + bs1.length) % 8 = 0 := by
+    have := congrArg List.length e1
+    simp only [List.length_append] at this
+    omega
+  rw [mod8_eq_padCount _ _ hl] at h2
+  obtain ⟨e2, _⟩ := readBits_ok h2
+  refine ⟨w ++ padBits w.length pad, ?_, ?_, ?_⟩
+  · simp only [writeStreamBits, hw, ok_bind]
+  · rw [e1, e2, padBits, List.append_assoc]
+  · simp only [List.length_append, padBits, length_bitsOfNat, padCount]
+    omega
 
 theorem write_parse (d : List UInt8) (p : Parsed) (h : parse d = .ok p) :
     writeStream p.blocks p.eofPadding = .ok (d.take (p.consumed d)) ∧ p.consumed d ≤ d.length := by
-  sorry
+  have hl := length_bytesToBits d
+  obtain ⟨w, hw, e, hw8⟩ := write_parse_bits (bytesToBits d) p (by omega) h
+  have hlen := congrArg List.length e
+  simp only [List.length_append] at hlen
+  have hc : p.consumed d = w.length / 8 := by
+    unfold Parsed.consumed; omega
+  refine ⟨?_, by unfold Parsed.consumed; omega⟩
+  simp only [writeStream, hw, ok_bind, hc]
+  rw [bitsToBytes_prefix (w.length / 8) d w p.rest e (by omega)]
 
 end Preflate.Proofs
